@@ -12,6 +12,8 @@ func main() {
 		os.Exit(2)
 	}
 	switch os.Args[1] {
+	case "check":
+		os.Exit(checkMain(os.Args[2:]))
 	case "fn":
 		t0 := time.Now()
 		e, err := loadEngine("/repo", "/verif/contracts")
